@@ -104,10 +104,10 @@ class Injector:
 
 def plan(tier, seed):
     if tier == "quick":
-        kinds = {"refine": 28, "storage": 32, "repeat": 160, "huge": 1}
+        kinds = {"refine": 28, "storage": 32, "repeat": 160, "huge": 1, "failing": 6}
         per = 8
     else:
-        kinds = {"refine": 900, "storage": 600, "repeat": 4000, "huge": 12}
+        kinds = {"refine": 900, "storage": 600, "repeat": 4000, "huge": 12, "failing": 120}
         per = 60
     sh = common.shards({k: v for k, v in kinds.items() if k != "repeat"}, per_shard=per, tier=tier, seed=seed, timeout_s=3000)
     sh += common.shards({"repeat": kinds["repeat"]}, per_shard=per * 5, tier=tier, seed=seed, timeout_s=3000)
@@ -146,6 +146,12 @@ def _emulsion_field(rng, dim, k, noise):
 def gen(rng, kind, tier):
     sched = str(rng.choice(["reversed", "rotated", "random", "straggler"]))
     nproc = [2, 3, 5, "auto"][int(rng.integers(4))]
+    if kind == "failing":
+        # a request whose serial execution raises (a NaN pixel inside one droplet, or solver options that do not go
+        # with bounds): "the same result whatever the number of processes" includes that outcome
+        f = _emulsion_field(rng, 2, int(rng.integers(3, 6)), 0.0)
+        return {"field": f, "num_processes": nproc, "how": str(rng.choice(["nan-pixel", "nan-pixel", "method-lm"])),
+                "victim": int(rng.integers(0, 8))}
     if kind == "refine":
         dim = int(rng.choice([2, 2, 3]))
         k = int(rng.integers(3, 9)) if dim == 2 else int(rng.integers(3, 5))
@@ -584,9 +590,46 @@ def run_huge(case, rec):
     rec.count("huge_fit_regions")
 
 
+def run_failing(case, rec):
+    import droplets
+    from droplets import image_analysis as ia
+
+    field = make_field(case["field"])
+    cands = list(droplets.locate_droplets(field))
+    if not cands:
+        rec.count("failing:no_candidates")
+        return
+    kw = {}
+    if case["how"] == "nan-pixel":
+        v = cands[case["victim"] % len(cands)]
+        cell = tuple(int(i) for i in np.asarray(field.grid.transform(np.asarray(v.position, float), "cartesian", "cell"), int))
+        cell = tuple(min(max(c, 0), n - 1) for c, n in zip(cell, field.grid.shape))
+        field.data[cell] = np.nan
+    else:
+        kw["least_squares_params"] = {"method": "lm"}
+    label = f"failing request ({case['how']}), {len(cands)} candidates, num_processes={case['num_processes']}"
+    ser = common.monitored(rec, "failing:serial", ia.refine_droplets, field, [c.copy() for c in cands], num_processes=1,
+                           **json.loads(json.dumps(kw)))
+    par = common.monitored(rec, "failing:parallel", ia.refine_droplets, field, [c.copy() for c in cands],
+                           num_processes=case["num_processes"], **json.loads(json.dumps(kw)))
+    if ser.ok:
+        rec.count("failing:serial_run_did_not_raise")
+        if par.ok:
+            rec.check(snap(droplets.Emulsion(ser.result, copy=False)) == snap(droplets.Emulsion(par.result, copy=False)),
+                      "parallel-equals-serial", f"results differ; {label}")
+    else:
+        rec.count(f"failing:serial_raises_{type(ser.exc).__name__}")
+        rec.check(not par.ok, "parallel-equals-serial",
+                  f"the serial run raises {type(ser.exc).__name__}: {str(ser.exc)[:80]}, the run with worker processes returns "
+                  f"{len(par.result) if par.ok else '?'} droplets; {label}")
+    rec.evaluated(nontrivial=not ser.ok)
+
+
 def run(case, rec):
     if case["kind"] == "huge":
         return run_huge(case, rec)
+    if case["kind"] == "failing":
+        return run_failing(case, rec)
     if case["kind"] == "refine":
         run_pool_case(case, rec, "refine")
     elif case["kind"] == "storage":
